@@ -245,7 +245,10 @@ func runCase(t *rapid.T, replay *workload) {
 		if o.Cmd[0] == "REWRITEAOF" {
 			rewrites++
 			setPoint(func(name string) {
-				if strings.HasPrefix(name, "rewrite.") || strings.HasPrefix(name, "pre.") || strings.HasPrefix(name, "aof.trunc") || name == "aof.synced" {
+				// ("aof.synced" is not one of them: the truncation syncs without that failpoint, and the event can
+				// come from the once-a-second sync goroutine of a server of an earlier case that has just been shut
+				// down — an image labelled with it would be taken at an unknown position of this rewrite.)
+				if strings.HasPrefix(name, "rewrite.") || strings.HasPrefix(name, "pre.") || strings.HasPrefix(name, "aof.trunc") {
 					snap(name, ncmd, ncmd+1)
 				}
 			})
